@@ -166,19 +166,32 @@ def run(prog, check):
              'a variable whose change is not measured: the loop stops while that equation is violated')
     subst = single_assign_subst(f.node)
     loopvars = target_names(fr.target)
+    loop_defs = {}
+    for st in ast.walk(fr):
+        if isinstance(st, ast.Assign) and len(st.targets) == 1 and isinstance(st.targets[0], ast.Name):
+            loop_defs.setdefault(st.targets[0].id, []).append(st.value)
+
+    def abs_derived(ex, depth=0):
+        """the expression contains abs(new[var] - old[var]) itself, or a local name all of whose definitions in the
+        per-variable loop do (helpers are already inlined)"""
+        for c in ast.walk(ex):
+            if isinstance(c, ast.Call) and call_name(c) == 'abs' and c.args and isinstance(c.args[0], ast.BinOp) \
+                    and isinstance(c.args[0].op, ast.Sub):
+                l, r = c.args[0].left, c.args[0].right
+                if all(isinstance(s_, ast.Subscript) and isinstance(s_.slice, ast.Name) and s_.slice.id in loopvars
+                       for s_ in (l, r)) and unparse(l.value) != unparse(r.value):
+                    return True
+        if depth > 4:
+            return False
+        for x in ast.walk(ex):
+            if isinstance(x, ast.Name):
+                defs = loop_defs.get(x.id) or ([subst[x.id]] if x.id in subst else [])
+                if defs and all(abs_derived(d, depth + 1) for d in defs):
+                    return True
+        return False
     for a in accum:
         val = a.ast.value
-        # expand local single-assignment names once
-        exprs = [val] + [subst[x.id] for x in ast.walk(val) if isinstance(x, ast.Name) and x.id in subst]
-        ok = False
-        for ex in exprs:
-            for c in ast.walk(ex):
-                if isinstance(c, ast.Call) and call_name(c) == 'abs' and c.args and isinstance(c.args[0], ast.BinOp) \
-                        and isinstance(c.args[0].op, ast.Sub):
-                    l, r = c.args[0].left, c.args[0].right
-                    if all(isinstance(s, ast.Subscript) and isinstance(s.slice, ast.Name) and s.slice.id in loopvars
-                           for s in (l, r)) and unparse(l.value) != unparse(r.value):
-                        ok = True
+        ok = abs_derived(val)
         check.ob('C02.R2', '%s::accumulated-term(%s)' % (f.key, unparse(val)), ok and isinstance(a.ast.op, ast.Add),
                  sw.where(a), 'term derives from abs(new[var] - old[var])' if ok else
                  'accumulated term is not abs(new[var]-old[var])-derived', 'non-converged variable')
@@ -190,9 +203,8 @@ def run(prog, check):
              'the measure is re-initialised inside the per-variable loop: only the last variable is measured',
              'two-equation system where the first equation has not converged')
     # evaluation target and accumulation are in the same loop over .Endogenous; the value stored is the eval result
-    stores = [n for n in ast.walk(fr) if isinstance(n, ast.Assign) and n.value is sw.sweep_eval]
-    ok = bool(stores) and all(isinstance(t, ast.Subscript) and isinstance(t.slice, ast.Name) and t.slice.id == loopvars[0]
-                              for s in stores for t in s.targets)
+    stores = sw.eval_stores()
+    ok = bool(stores) and all(isinstance(t.slice, ast.Name) and t.slice.id == loopvars[0] for _, t in stores)
     check.ob('C02.R2', '%s::eval-stored-under-own-name' % f.key, ok, '%s:%d' % (f.module.rel, sw.sweep_eval.lineno),
              'eval result stored under the variable it defines' if ok else 'eval result not stored under its own variable',
              'any system with two variables')
@@ -204,7 +216,10 @@ def run(prog, check):
     r3 = 0
     for n in ast.walk(sw.loop):
         if isinstance(n, ast.Assign):
+            flat_targets = []
             for t in n.targets:
+                flat_targets.extend(t.elts if isinstance(t, (ast.Tuple, ast.List)) else [t])
+            for t in flat_targets:
                 if isinstance(t, ast.Subscript) and isinstance(t.value, ast.Name) and not isinstance(t.slice, ast.Slice):
                     # find the enclosing for inside the while
                     p = n
@@ -287,30 +302,37 @@ def run(prog, check):
              'the committed iterate is not re-bound between the sweep loop and the commit', 'any model')
     # the iterate handed to the next sweep / committed is the freshly computed one
     lastassign = [n for n in sw.loop_nodes if assigns_name(n, C)]
-    newnames = {t.value.id for s in ast.walk(sw.endo_for) if isinstance(s, ast.Assign) and s.value is sw.sweep_eval
-                for t in s.targets if isinstance(t, ast.Subscript) and isinstance(t.value, ast.Name)}
+    newnames = {t.value.id for _, t in sw.eval_stores() if isinstance(t.value, ast.Name)}
     ok = bool(lastassign) and all(isinstance(n.ast.value, ast.Name) and n.ast.value.id in newnames for n in lastassign)
     check.ob('C02.R4', '%s::iterate-advances' % f.key, ok, sw.where(lastassign[0]) if lastassign else f.where,
              '`%s` is re-bound to the newly computed values at the end of each sweep' % C if ok else
              'the committed iterate is not the newly computed one', 'any simultaneous system')
     # ---- R5 ----------------------------------------------------------------------------------------
-    if not sw.flags:
-        raise AnalysisError('no evaluation-error flag found in the sweep handlers')
-    flag = sw.flags[0]
-    tests = [n for n in sw.post_nodes if n.kind == 'test' and mentions(n.ast, flag)]
-    for c in sw.commit_nodes:
-        ok = False
-        for t in tests:
-            if g.dominates(t, c):
-                pos = not (isinstance(t.ast, ast.UnaryOp) and isinstance(t.ast.op, ast.Not))
-                lab = True if pos else False
-                tgt = [b for b, l in g.succ[t.id] if l == lab]
-                if tgt and c.id not in g.reach(tgt, include_src=True):
-                    ok = True
-        check.ob('C02.R5', '%s::error-flag-blocks-commit(%s)' % (f.key, unparse(c.ast)[:60]), ok, sw.where(c),
-                 'commit dominated by a raising test of `%s`' % flag if ok else
-                 'commit reachable while `%s` is set' % flag,
-                 'a system whose last sweep stepped over a division by zero')
+    # a sweep in which an evaluation error was stepped over must not be followed by a commit: from every handler of a
+    # try around an evaluation, walk the feasible paths (truthiness constants propagated, so `flag = True` / an error
+    # message that is a non-empty literal is remembered and `if flag: raise` is honoured) up to the start of the next
+    # sweep; no commit may be reached.
+    from ..dataflow import truth_search, trace
+    handlers = []
+    for n in sw.loop_nodes:
+        if n.kind == 'except' and isinstance(n.stmt, ast.Try) and any(eval_calls(b) for b in n.stmt.body):
+            handlers.append(n)
+    commit_ids = {c.id for c in sw.commit_nodes}
+
+    def new_sweep(a, b, lab):
+        return a == sw.loop_test.id and lab is True
+    for h in handlers:
+        hits, seen = truth_search(g, [h], commit_ids, stop_edge=new_sweep)
+        ok = not hits
+        wit = ''
+        if hits:
+            k = sorted(hits)[0]
+            wit = ' via lines ' + ','.join(str(x) for x in trace(seen, hits[k], g))
+        ty = unparse(h.ast.type) if h.ast.type is not None else 'bare'
+        check.ob('C02.R5', '%s::stepped-over-error-blocks-commit(%s)' % (f.key, ty), ok, sw.where(h),
+                 'no commit is reachable from this handler before the next sweep starts' if ok else
+                 'a commit is reachable after an error was stepped over in the same sweep' + wit,
+                 'a system whose last sweep stepped over a division by zero in an equation that is not the last one')
     # the flag is cleared at the start of each sweep and only raised in handlers: its post-loop value is the last sweep's
     # ---- R6: the tolerance the sweep stops at is the submitted one -------------------------------------------------
     n6 = 0
@@ -369,11 +391,9 @@ def _iterate_names(sw):
     names = set()
     if isinstance(sw.sweep_env, ast.Name):
         names.add(sw.sweep_env.id)
-    for s in ast.walk(sw.endo_for):
-        if isinstance(s, ast.Assign) and s.value is sw.sweep_eval:
-            for t in s.targets:
-                if isinstance(t, ast.Subscript) and isinstance(t.value, ast.Name):
-                    names.add(t.value.id)
+    for _, t in sw.eval_stores():
+        if isinstance(t.value, ast.Name):
+            names.add(t.value.id)
     return names
 
 
